@@ -1191,6 +1191,13 @@ class Harness:
         )
         if cfg.get("attempt_timeout"):
             kw["attempt_timeout_s"] = cfg["attempt_timeout"]
+        if cfg.get("omit_limits"):
+            # the caller leaves the limits to the library: deadline_s, max_attempts and max_unknown_attempts are not passed at all, and the
+            # documented defaults (60 s, 6 attempts, 2 UNKNOWN retries - the values this scenario's cfg holds) are what must apply
+            # (a limit the check has since set to something else is passed like any other)
+            for name, key, default in (("deadline_s", "deadline_s", 60.0), ("max_attempts", "max_attempts", 6), ("max_unknown_attempts", "max_unknown", 2)):
+                if cfg.get(key) == default and type(cfg.get(key)) is type(default):
+                    kw.pop(name)
         self.retry_kw = kw
         A = self.is_async
         k = self.kind
@@ -1209,8 +1216,10 @@ class Harness:
                 for name in ("result_classifier", "sleep", "before_sleep", "sleeper", "budget", "max_attempts"):
                     if name in kw:
                         setattr(o, name, kw[name])
-                o.deadline = datetime.timedelta(seconds=kw["deadline_s"])
-                o.max_unknown_attempts = kw["max_unknown_attempts"]
+                if "deadline_s" in kw:
+                    o.deadline = datetime.timedelta(seconds=kw["deadline_s"])
+                if "max_unknown_attempts" in kw:
+                    o.max_unknown_attempts = kw["max_unknown_attempts"]
                 o.per_class_max_attempts = dict(kw["per_class_max_attempts"])
                 if "attempt_timeout_s" in kw:
                     o.attempt_timeout_s = kw["attempt_timeout_s"]
@@ -1223,10 +1232,8 @@ class Harness:
             from redress.config import RetryConfig
 
             conf = RetryConfig(
-                deadline_s=kw["deadline_s"],
+                **{n_: kw[n_] for n_ in ("deadline_s", "max_attempts", "max_unknown_attempts") if n_ in kw},
                 attempt_timeout_s=kw.get("attempt_timeout_s"),
-                max_attempts=kw["max_attempts"],
-                max_unknown_attempts=kw["max_unknown_attempts"],
                 per_class_max_attempts=kw["per_class_max_attempts"],
                 default_strategy=kw["strategy"],
                 class_strategies=kw["strategies"] or None if kw["strategy"] is not None else kw["strategies"],
@@ -1369,8 +1376,8 @@ class Harness:
             # the SAME function is wrapped a second time with other settings (a patient variant next to the fast one); both wrappers
             # stay alive, the first one is the one that gets called
             self.decoy_decorated = retry_decorator(
-                max_attempts=kw["max_attempts"] + 3,
-                deadline_s=kw["deadline_s"] * 2 + 10.0,
+                max_attempts=kw.get("max_attempts", 6) + 3,
+                deadline_s=kw.get("deadline_s", 60.0) * 2 + 10.0,
                 classifier=lambda e: EC.TRANSIENT,
                 strategy=lambda ctx: 0.0,
             )(fn)
